@@ -120,11 +120,65 @@ def splice_into(rec, helpers):
     return n
 
 
+def _rename_strings(x, old, new):
+    """deep copy with the def path `old` (and its children `old::{closure#k}`, promoted paths, `closure:old..`) renamed"""
+    if isinstance(x, dict):
+        return {k: _rename_strings(v, old, new) for k, v in x.items()}
+    if isinstance(x, list):
+        return [_rename_strings(v, old, new) for v in x]
+    if isinstance(x, str) and old in x:
+        out = []
+        i = 0
+        while True:
+            j = x.find(old, i)
+            if j < 0:
+                out.append(x[i:])
+                break
+            before = x[j - 1] if j > 0 else ''
+            after = x[j + len(old): j + len(old) + 1]
+            ok_before = not (before.isalnum() or before == '_') and not (before == ':' and j >= 2 and x[j - 2] == ':' and (j < 3 or x[j - 3].isalnum() or x[j - 3] == '_'))
+            ok_after = not (after.isalnum() or after == '_')
+            out.append(x[i:j])
+            out.append(new if ok_before and ok_after else old)
+            i = j + len(old)
+        return ''.join(out)
+    return x
+
+
+def alias_moved_functions(facts, body_cls, ref):
+    """A function of the reference inventory that no longer exists, while exactly one new function of the same name exists
+    elsewhere, was moved (to another module, into an impl block): the new path is renamed back to the reference path in every
+    fact, so that rules, known-finding keys and anchors keep addressing it. Returns [(new path, reference path)]."""
+    cur = {p for p, b in facts.bodies.items() if b.kind in ('fn', 'method')}
+    missing = [m for m in ref if m not in cur]
+    new = [p for p in cur if p not in ref and facts.bodies[p].file.startswith('src/') and not (' as ' in p and '>::' in p)]
+    if not missing or not new:
+        return []
+
+    def last(p):
+        return p.rsplit('::', 1)[-1]
+    out = []
+    for p in sorted(new):
+        olds = [m for m in missing if last(m) == last(p) and not (' as ' in m and '>::' in m)]
+        rivals = [q for q in new if last(q) == last(p)]
+        if len(olds) == 1 and len(rivals) == 1 and facts.bodies[p].argc == facts.ref_argc.get(olds[0], facts.bodies[p].argc):
+            out.append((p, olds[0]))
+    if not out:
+        return []
+    recs = {q: b.rec for q, b in facts.bodies.items()}
+    for p, old in out:
+        recs = {(_rename_strings(q, p, old)): _rename_strings(r, p, old) for q, r in recs.items()}
+    facts.bodies = {q: body_cls(r, facts) for q, r in recs.items()}
+    return out
+
+
 def splice_new_helpers(facts, body_cls):
     """see module docstring; returns [(helper path, [callers])] for the evidence"""
     ref = reference()
     if ref is None:
         return []
+    facts.ref_argc = {}
+    facts.moved = alias_moved_functions(facts, body_cls, ref)
     cand = {}
     for p, b in facts.bodies.items():
         if b.kind not in ('fn', 'method') or p in ref or not b.file.startswith('src/'):
